@@ -28,19 +28,19 @@ type viol struct {
 }
 
 type result struct {
-	Op        string           `json:"op"`
-	Type      int              `json:"type"`
-	Evals     int64            `json:"evals"`
-	Decodes   int64            `json:"decodes"`
-	Values    int              `json:"values"`   // generated values (plan) / values checked (values)
-	Distinct  int              `json:"distinct"` // distinct valid encodings
-	Weight    int64            `json:"weight"`
-	Strings   int64            `json:"strings"` // distinct byte strings tried
-	Outcomes  map[string]int64 `json:"outcomes"`
-	Viols     []viol           `json:"viols"`
-	Samples   []any            `json:"samples,omitempty"`
-	Err       string           `json:"err,omitempty"`
-	StructDif []string         `json:"structdif,omitempty"`
+	Op        string              `json:"op"`
+	Type      int                 `json:"type"`
+	Evals     int64               `json:"evals"`
+	Decodes   int64               `json:"decodes"`
+	Values    int                 `json:"values"`   // generated values (plan) / values checked (values)
+	Distinct  int                 `json:"distinct"` // distinct valid encodings
+	Weight    int64               `json:"weight"`
+	Strings   int64               `json:"strings"` // distinct byte strings tried
+	Outcomes  map[string]int64    `json:"outcomes"`
+	Viols     []viol              `json:"viols"`
+	Samples   []any               `json:"samples,omitempty"`
+	Err       string              `json:"err,omitempty"`
+	StructDif []string            `json:"structdif,omitempty"`
 	Notes     map[string][]string `json:"notes,omitempty"` // informational: examples per non-violation class
 }
 
@@ -203,6 +203,8 @@ func (c *checker) decG(bs []byte) (reflect.Value, callRes) {
 
 func hx(b []byte) string { return hex.EncodeToString(b) }
 
+var crashOn = os.Getenv("C20_CRASH_ON")
+
 func (c *checker) traceCase(kind, s string) {
 	if c.trace != nil {
 		rec := fmt.Sprintf("%s|%s|%s", kind, c.reg.name, s)
@@ -333,6 +335,14 @@ func (c *checker) checkBytes(bs []byte) {
 	c.res.Evals++
 	if c.trace != nil {
 		c.traceCase("bytes", hx(bs))
+	}
+	if crashOn != "" && crashOn == c.reg.name+":"+hx(bs) {
+		// self-test of the isolation (C20_CRASH_ON=type:hex): exhaust memory like a runaway decoder would.
+		var hog [][]byte
+		for {
+			hog = append(hog, make([]byte, 1<<30))
+			hog[len(hog)-1][0] = 1
+		}
 	}
 	dR, rR := c.decR(bs)
 	if rR.pan != "" {
